@@ -1024,6 +1024,7 @@ package mcp
 //@   before call Marshal#1 assert[C10 meta-is-kept-as-meta-or-as-a-plain-field] old("_meta" in params) ==> (istype(old(params["_meta"]), map[string]interface{}) ? same(jsonNotification.Params.Meta, old(params["_meta"]).(map[string]interface{})) : (("_meta" in jsonNotification.Params.AdditionalFields) && jsonNotification.Params.AdditionalFields["_meta"] == old(params["_meta"])))
 
 // client side: each decoded notification goes exactly once to the handler registered for its method
+//@
 //@ ghost stable notifcalls int
 //@ callspec NotificationHandler
 //@   counted notifcalls
